@@ -6,6 +6,7 @@ mod util;
 mod maps;
 mod algebra;
 mod text;
+mod extsort;
 use sexp::*;
 use std::io::{BufRead, Write};
 
@@ -28,6 +29,10 @@ fn run_case(x: &Sx) -> Sx {
         "read" => text::run_read(&l[1..]),
         "wr" => text::run_wr(&l[1..]),
         "skiprun" => text::run_skiprun(&l[1..]),
+        "chunk" => extsort::run_chunk(&l[1..]),
+        "kmerge" => extsort::run_kmerge(&l[1..]),
+        "xsort" => extsort::run_xsort(&l[1..]),
+        "tmp" => extsort::run_tmp(&l[1..]),
         k => Sx::L(vec![a("glue-error"), a(format!("unknown-kind-{}", k))]),
     }
 }
